@@ -17,7 +17,7 @@ CHECKS = {
         "thorough": {"shards": 16, "checks": 3000},
         "rule": "rapid-generated block histories from the empty accumulator (deletion modes none/all/whole trees/sibling pairs/lone root/climbed/"
                 "all-but-one/one/p=1/8,1/2,7/8; addition modes 0,1,2,3,to 2^k-1,to 2^k,past 2^k,random) applied in lock-step to Stump, Pollard and 2-3 "
-                "MapPollard configurations (full and partial, TotalRows from {0..6,8,16,31,32,33,62,63} or uniform 0..63; half of the partial ones 'direct': Modify without a preceding Verify(remember) when every deleted leaf is already cached; before a third of the blocks a partial forest is asked to Prune a drawn subset of what it remembers; before a fifth of the blocks every map forest is handed a block it must REFUSE - 1-3 live leaves followed by a hash that is no leaf - and must stay as it was; before a third of the blocks every forest is asked to REMEMBER 1-4 live leaves (the newest one preferred) through Verify(remember), a partial forest alternatively through Ingest or GetMissingPositions+VerifyPartialProof(remember); the argument slices of successive calls of an instance are regions of the same recycled buffers; in a third of the cases a full or partial map forest JOINS LATE from the bare roots of a drawn block (NewMapPollardFromRoots), learns each block's spent leaves through Verify(remember) and must agree on the roots from then on) and compared with the "
+                "MapPollard configurations (full and partial, TotalRows from {0..6,8,16,31,32,33,62,63} or uniform 0..63; half of the partial ones 'direct': Modify without a preceding Verify(remember) when every deleted leaf is already cached; before a third of the blocks a partial forest is asked to Prune a drawn subset of what it remembers; before a fifth of the blocks every map forest is handed a block it must REFUSE - 1-3 live leaves followed by a hash that is no leaf - and must stay as it was; before a third of the blocks every forest is asked to REMEMBER 1-4 live leaves (the newest one preferred) through Verify(remember), a partial forest alternatively through Ingest or GetMissingPositions+VerifyPartialProof(remember); before a fifth of the blocks every forest applies a STALE TIP (an additions-only block of another branch, every leaf remembered) and undoes it again; the argument slices of successive calls of an instance are regions of the same recycled buffers; in a third of the cases a full or partial map forest JOINS LATE from the bare roots of a drawn block (NewMapPollardFromRoots), learns each block's spent leaves through Verify(remember) and must agree on the roots from then on) and compared with the "
                 "reference model after every block, plus the same survivors re-batched (one-shot / split / re-cut). Non-trivial: some block deletes and "
                 "some block adds and at least one of: a whole tree emptied, an empty root overwritten by additions, TreeRows changes, a leaf at row>=2. "
                 "Distinct by SHA-256 of the case JSON. Sizes: forests up to 96 leaves / 14 blocks, 1 case in 40 up to 640 leaves / 26 blocks / 300 additions per block (thorough: 1100 / 40 / 200, 1 in 8 up to 2600 / 48 / 700, 1 in 48 up to 12000 leaves with blocks of thousands). Before the generated search, deterministic scale probes: a hand-shaped history on 2^9, 2^12 and 2^13 leaves (thorough up to 2^15) with leaves climbing two rows, a half emptied with n/2 targets, climbed leaves deleted together with row-0 twins of the same block, and a power-of-two crossing, on 2 map configurations each.",
